@@ -8,6 +8,12 @@ NOT_APPLICABLE = {f"C{i:02d}": _PENDING for i in range(1, 21)}
 TRUST = "Trusted: rustc/std float semantics, the harness' own oracle code, the python driver. Held = held on the executions observed (exhaustive only for the sub-domains named in evidence)."
 
 CLAIMS = {
+    "C02": {
+        "text": "Reference-model monitor: each of the 1608 listed conversion pairs (f32 and f64; D65 group with seven RGB standards, hexcone, CIE, Ok* and HSLuv spaces, plus D50/ProPhoto, DCI-P3 and sRGB-primaries-with-white-E/A groups, so non-D65 white points and dynamically derived matrices are exercised) is run on in-range inputs - the in-gamut part of the boundary lattice, +-k-ulp straddle points of every piecewise join of both spaces (Lab/Luv epsilon, transfer-curve knees, hexcone sector ties, HSL l = 1/2, greys) pulled back through the model, and seeded in-gamut fill (400 per pair quick, 40000 thorough) - and compared with an independent f64 model typed from the published definitions. Comparison is in cartesian form with a bound calibrated by the model's own local sensitivity (64 ulp on inputs and intermediate, 2e-6 where published 7-digit constants are crossed).",
+        "design_ref": "DESIGN.md section 3, C02",
+        "note": TRUST + " The model derives every RGB<->XYZ matrix from primaries and white point, so palette's hard-coded matrices are checked against an independent derivation.",
+        "technique": "runtime monitoring: differential check of the real conversions against an independent executable reference model with sensitivity-calibrated tolerance",
+    },
     "C07": {
         "text": "Runtime monitor whose oracle is finiteness + catch_unwind: all 1608 listed conversion pairs (54 colour types x f32/f64 in five white-point groups: D65 incl. AdobeRgb/Rec709/Rec2020/DisplayP3 and hexcone/Ok*/Luv/Lab families, D50/ProPhoto, DCI-P3, and sRGB primaries with white points E and A) in their unclamped, clamping and checked forms, plus clamp, clamp_assign and is_within_bounds, are executed on the full cross-product boundary lattice of the source space (each component on a bound, a billionth of the range inside it, zero, +-billionth around zero, mid-range; sector-edge hues; w+b<=1 for HWB) and on seeded in-range points (150 per pair quick, 20000 thorough).",
         "design_ref": "DESIGN.md section 3, C07",
